@@ -15,6 +15,15 @@ THEOREMS = [
     "Mesa.Collect.C12_agenttype_records_by_step",
     "Mesa.Collect.C12_agenttype_rows_are_class_members",
     "Mesa.Collect.C12_table_rows_aligned",
+    "Mesa.Collect.C12_partial_collect_visible",
+    "Mesa.Collect.C12_raising_model_reporter_leaves",
+    "Mesa.Collect.C12_raising_agent_reporter_leaves",
+    "Mesa.Collect.C12_records_with_raising_reporters",
+    "Mesa.Collect.C12_model_frame_every_shape",
+    "Mesa.Collect.C12_agenttype_frame_is_records",
+    "Mesa.Collect.C12_deepcopy_makes_stored_values_immune",
+    "Mesa.Collect.C12_reorder_only_permutes_agents",
+    "Mesa.Collect.C12_creation_order_without_reorder",
     "Mesa.Collect.C18_collect_tablerow_reject_unchanged",
     "Mesa.Collect.C18_collect_tablerow_rejects_exactly",
     "Mesa.Collect.C18_collect_tablerow_reject_history",
@@ -23,18 +32,23 @@ COUNTS = {"quick": 2500, "thorough": 200000}
 TRUSTED = [
     "pandas: DataFrame(dict of equal-length lists) and DataFrame.from_records(list of tuples, columns, index) only re-index what they are given (frames are compared as index tuples / column names / values on every run)",
     "copy.deepcopy detaches a stored model-level value from the live object (exercised: list attributes are mutated in place after every collect)",
-    "reporters are total functions of the snapshot (model/agent attributes, steps, registry); reporters that raise, have side effects or read global state are not modelled",
-    "Model.agents / agents_by_type keep registration order (C03); in-place shuffles of model.agents between collects are not generated",
+    "reporters are functions of the snapshot (model/agent attributes, steps, registry) that return a value or raise; reporters with side effects (the trial call of the validation runs a plain function twice at the first collect) or reading global state are not modelled",
+    "Model.agents / agents_by_type keep registration order (C03) until reordered; model.agents is reordered in place only through AgentSet.shuffle(inplace=True) (the random source replaced by one drawing the reversal / the rotation by one) and AgentSet.sort(key, ascending, inplace=True) (by unique_id, by an int-valued key); agents_by_type[T] is never reordered, select(inplace=True) on model.agents is not generated",
     "names (reporters, attributes, tables, columns, classes) are small naturals in dictionary order; key collisions between dictionaries are not generated",
 ]
 ASSUMPTIONS = [
     "agent-level values are immutable (ints / None), as in the property's quantifier",
+    "a collect inside which a reporter raises is outside the property (C12 quantifies over reporters that yield a value; C18 does not list collect): the oracle stops judging model_vars / frames after such a call, the correspondence still ties what the call left behind (partial collect) to the model",
     "the agent-type clauses are judged only for keys the quantifier allows (a class without subclassed instances or a base class without direct instances); other keys are still tied to the model, which follows the code",
 ]
-RULE = ("random histories over a random class hierarchy (1-4 classes) and reporter dictionaries mixing the four reporter forms at model, agent and "
-        "agent-type level (attribute names incl. missing ones, lambdas / plain functions / partials, bound methods, [function, args]) plus 0-2 tables; "
+RULE = ("random histories over a random class hierarchy (1-4 classes, random parents; with >= 3 classes one class has two bases in 25% of the scenarios) and reporter dictionaries mixing the four reporter forms at model, agent and "
+        "agent-type level (attribute names incl. missing ones, lambdas / plain functions / partials, bound methods, [function, args]) plus 0-2 tables; in 12% of the "
+        "scenarios some function reporters read their attribute directly and raise AttributeError while it is missing (first collect: RuntimeError from the trial "
+        "call of a plain function; later: the collect ends in the model / agent / agent-type phase and leaves a partial collect); "
         "6-30 ops from {create, remove (incl. twice), step, model attribute set / in-place list append / delete, agent attribute set / delete, "
-        "collect (0-n per step, also before any agent exists), add_table_row (complete, partial, ignore_missing, unknown table)} with observations "
+        "collect (0-n per step, also before any agent exists), add_table_row (complete, partial, ignore_missing, unknown table)}; in 30% of the scenarios "
+        "model.agents is reordered in place between collects (shuffle(inplace=True) drawing a reversal / rotation, sort(inplace=True) by unique_id or an "
+        "int key, ascending / descending); with observations "
         "(model_vars, the four DataFrames) interleaved and at the end; non-trivial = at least one collect stored something and a frame with >= 1 row "
         "was observed; distinct = distinct op-line sequences (sha1)")
 
@@ -68,7 +82,10 @@ def tags(sc, obs):
             yield f"{w[0]}:{w[1]}"
         elif w[0] == "trep":
             yield "trep"
-        elif w[0] in ("scenario", "classes", "table", "start"):
+        elif w[0] == "classes":
+            if any("+" in x for x in w[1:]):
+                yield "hier:multiple-inheritance"
+        elif w[0] in ("scenario", "table", "start"):
             continue
         else:
             yield "op:" + w[0] + ("" if o.startswith("ok") else ":" + o)
@@ -83,6 +100,11 @@ def tags(sc, obs):
     spec = trace.get("spec")
     if spec and any(not CC.type_clause_applies(spec, cs, T) for T, _ in spec.treps if T < len(spec.parents)):
         yield "branch:type-key-outside-quantifier"
+    if any(c.get("reordered") and len(c["agents"]) >= 2 and [a[0] for a in c["agents"]] != sorted(a[0] for a in c["agents"]) for c in cs):
+        yield "branch:collect-with-agents-out-of-creation-order"
+    for c in cs:
+        if CC.silent(c):
+            yield f"branch:reporter-raised-in-collect:{c['phase']}:{c['outcome']}"
 
 
 if __name__ == "__main__":
